@@ -4,6 +4,8 @@
   (`to_nx`, `_to_dot`) evaluate to the denotation.
 -/
 import DDProofs.SatProofs
+import DDProofs.SmallViews
+import DDProofs.GcExample
 namespace DD
 
 /-- Shannon expansion through the user-visible views.  For a non-terminal `u` with
@@ -40,8 +42,44 @@ theorem C18_descendants_spec (t : Tbl) (hw : WF t) (roots : List Int) (hm : ∀ 
   | nil => exact absurd rfl hne
   | cons r rest => exact (s 1).mpr ⟨r, by simp, reach_term hw r (hm r (by simp))⟩
 
-/-- `len(bdd)`: the number of stored nodes, terminal included -/
-theorem C18_len_spec (m : Mgr) : m.len = m.tbl.succ.size + 1 := rfl
+/-- `len(bdd)` (`len(self._succ)`): the number of entries of the node table plus the terminal;
+on a well-formed table this is the number of references `u > 0` of the manager: there is a
+duplicate-free (strictly ascending) list of exactly the `u` with `u in bdd`, of that length -/
+theorem C18_len_spec (m : Mgr) :
+    m.len = m.tbl.succ.size + 1 ∧
+    (WF m.tbl → ∃ l : List Nat, l.Pairwise (· < ·) ∧ (∀ u : Nat, u ∈ l ↔ m.tbl.Mem (u : Int)) ∧
+      m.len = l.length) :=
+  ⟨rfl, len_eq_card m⟩
+
+/-- `len(bdd)` after `collect_garbage()`: the number of nodes reachable from the nodes the user
+holds (ledger `ext`), the terminal included; never more than before -/
+theorem C18_len_after_gc (m : Mgr) (ext : Nat → Nat) (hi : Inv m) (hr : RefExact m ext) :
+    ∃ (m' : Mgr) (l : List Nat), collectGarbage none m = (.ok (), m') ∧ l.Pairwise (· < ·) ∧
+      (∀ u : Nat, u ∈ l ↔ (u = 1 ∨ GcReach m.tbl (GcHeld ext) u)) ∧ m'.len = l.length ∧
+      m'.len ≤ m.len :=
+  len_after_gc m ext hi hr
+
+/-- `len(u)` / `u.dag_size` of a `Function` (`len(self.manager.descendants([self.node]))`): on a
+live handle it returns, without touching the state, the number of nodes reachable from the
+handle's node — the terminal included (so a constant has size 1) -/
+theorem C18_fLen_spec (a : AMgr) (hw : WF a.m.tbl) (hs : Nat) (s : Int)
+    (hh : a.handles[hs]? = some s) (hm : a.m.tbl.Mem s) :
+    ∃ l : List Nat, fLen hs a = (.ok l.length, a) ∧ l.Pairwise (· < ·) ∧
+      (∀ v, v ∈ l ↔ Reach a.m.tbl s.natAbs v) ∧ 1 ∈ l :=
+  fLen_spec a hw hs s hh hm
+
+/-- `u.level` and `u.var` of a `Function` on a live handle: pure reads; `level` is the level of
+the node (`len(vars)` for the terminal); `var` is `None` for the terminal and otherwise
+`var_at_level(level)`, which under `VarsOK` (every level has a name; part of `OrderOK`) is the
+`t.nameOf n.lvl` in terms of which `C18_expand_spec` states the expansion by NAME -/
+theorem C18_fLevel_fVar_spec (a : AMgr) (hw : WF a.m.tbl) (hv : VarsOK a.m.tbl) (hs : Nat) (s : Int)
+    (hh : a.handles[hs]? = some s) (hm : a.m.tbl.Mem s) :
+    fLevel hs a = (.ok (a.m.tbl.levelOf s), a) ∧
+    (s.natAbs = 1 → fVar hs a = (.ok none, a)) ∧
+    (∀ n, s.natAbs ≠ 1 → a.m.tbl.succ[s.natAbs]? = some n →
+      fVar hs a = (.ok (some (a.m.tbl.nameOf n.lvl)), a) ∧
+      varAtLevel (n.lvl : Int) a.m = (.ok (a.m.tbl.nameOf n.lvl), a.m)) :=
+  fLevel_fVar_spec a hw hv hs s hh hm
 
 /-- evaluating a faithful export (`GraphOK`) from any exported node gives the denotation,
 whichever matching edge is followed -/
@@ -111,6 +149,32 @@ theorem C18_toDot_eval (t : Tbl) (hw : WF t) :
     exact ⟨g, e, fun u l h => (ok.nodes u l h).2,
       fun r hr a b => graph_eval_of_ok hw ok r hr (s r hr) a b⟩
 
+/-- `_to_dot(roots, bdd)`, the exact node/edge content of the DOT graph (the model has the
+GRAPH, not the DOT text: layout attributes, the phantom rank nodes `L<i>` and the `ref<u>` marks of
+the roots are only in the driver's answer line and in the differential check).
+Vertices: exactly one per descendant of the roots (`ns` is strictly ascending, its members are
+the reachable nodes), each with the level of the rank it is drawn in (`nvars` for the terminal).
+Edges: for every non-terminal vertex `x` with `succ(x) = (i, v, w)` exactly two, in this order:
+the low edge `(x, |v|, value=False, complemented = (v < 0))` — the code's `style='dashed'`, with
+`taillabel='-1'` exactly when `v < 0` — and the high edge `(x, |w|, True, False)`
+(`style='solid'`, never complemented); the terminal has no outgoing edge. -/
+theorem C18_toDot_shape (t : Tbl) (hw : WF t) :
+    (∀ roots : List Int, roots ≠ [] → (∀ r ∈ roots, t.Mem r) →
+      ∃ ns, descendants t roots = .ok ns ∧ ns.Pairwise (· < ·) ∧
+        (∀ v, v ∈ ns ↔ ∃ r ∈ roots, Reach t r.natAbs v) ∧
+        toDot t (some roots) =
+          .ok (ns.map (fun x => (x, t.levelOf (x : Int))), ns.flatMap (edgesOf t))) ∧
+    toDot t none =
+      .ok ((1 :: t.succ.keys).map (fun x => (x, t.levelOf (x : Int))),
+           (1 :: t.succ.keys).flatMap (edgesOf t)) ∧
+    edgesOf t 1 = [] ∧ t.levelOf (1 : Int) = t.nvars ∧
+    (∀ x n, t.succ[x]? = some n →
+      edgesOf t x = [(x, n.lo.natAbs, false, decide (n.lo < 0)), (x, n.hi.natAbs, true, false)] ∧
+      t.levelOf (x : Int) = n.lvl) :=
+  ⟨fun roots hne hm => toDot_some_shape hw roots hne hm, toDot_none_shape hw,
+   edgesOf_terminal t hw, levelOf_term t 1 rfl,
+   fun x n hn => ⟨edgesOf_node t x n hn, levelOf_nat_node hw hn⟩⟩
+
 /-! ### non-vacuity on the table of `x ∧ y` -/
 
 example : WF exTbl ∧ exTbl.Mem 3 ∧ exTbl.Mem (-3) := ⟨exTbl_wfu.toWF, exTbl_mem3, exTbl_mem_neg3⟩
@@ -119,6 +183,25 @@ example := C18_expand_terminal exTbl (-1) (by decide)
 example := C18_descendants_spec exTbl exTbl_wfu.toWF [-3, 2] (by decide)
 example : descendants exTbl [-3] = .ok [1, 2, 3] := by rfl
 example : ({} : Mgr).len = 1 := by decide
+example := (C18_len_spec exM).2 exM_inv.wf.toWF
+example : exM.len = 4 := by decide
+/-- after the collection of the example manager of C06 (user holds node 4 = `a ∧ b`; node 2 is
+garbage) three nodes are left: 1, 3, 4 -/
+example := C18_len_after_gc exM exExt exM_inv exM_refExact
+example : (collectGarbage none exM).2.len = 3 := by decide
+/-- a handle on node 3 (`x ∧ y`) of the example table: `len` is 3 (nodes 1, 2, 3) -/
+example := C18_fLen_spec { m := { tbl := exTbl }, handles := ({} : Std.TreeMap Nat Int).insert 0 3 }
+  exTbl_wfu.toWF 0 3 (by decide) exTbl_mem3
+example : (fLen 0 { m := { tbl := exTbl }, handles := ({} : Std.TreeMap Nat Int).insert 0 3 }).1.toOption
+    = some 3 := by decide
+example := C18_fLevel_fVar_spec { m := { tbl := exTbl }, handles := ({} : Std.TreeMap Nat Int).insert 0 (-3) }
+  exTbl_wfu.toWF exTbl_varsOK 0 (-3) (by decide) exTbl_mem_neg3
+example : (fVar 0 { m := { tbl := exTbl }, handles := ({} : Std.TreeMap Nat Int).insert 0 (-3) }).1.toOption
+    = some (some "x") := by decide
+example := (C18_toDot_shape exTbl exTbl_wfu.toWF).1 [-3] (by simp) (by decide)
+/-- the DOT graph of `¬(x ∧ y)`: three vertices, the low edges of both nodes complemented -/
+example : toDot exTbl (some [-3]) = .ok ([(1, 2), (2, 1), (3, 0)],
+    [(2, 1, false, true), (2, 1, true, false), (3, 1, false, true), (3, 2, true, false)]) := by rfl
 example := C18_toNx_eval exTbl exTbl_wfu.toWF [3, -3] (by decide)
 example : toNx exTbl [2] = .ok ([(2, 1), (1, 2)], [(2, 1, false, true), (2, 1, true, false)]) := by rfl
 example := (C18_toDot_eval exTbl exTbl_wfu.toWF).1 [-3] (by simp) (by decide)
